@@ -184,14 +184,14 @@ def gen_items(tier, seed):
     pre_wallets = [[], ['1'], ['1', '1'], ['cent', '1'], ['one'], ['neg'], ['neg', '1'], ['dust1', 'cent']]
     for w in pre_wallets:
         for fpb in ([50] if quick else [1, 50, 1000]):
-            items.append(('G4', {'syms': w, 'fpb': fpb, 'strategies': ALL_STRATEGIES, 'pre': True}))
+            items.append(('G4', {'syms': w, 'fpb': fpb, 'strategies': ALL_STRATEGIES + [None], 'pre': True}))
     # G5: fee rates
     for fpb in (1, 1000):
         for ms in multisets(['neg', 'dust', 'cent', '1', '5'] if quick else QUICK_AMOUNTS, 2 if quick else 3):
             items.append(('G5', {'syms': list(ms), 'fpb': fpb, 'strategies': strategies, 'rich': len(ms) <= 2}))
     # G6: decoys that must never be selected (reserved, spent, other account's, a claim) + received purchase
     for w in [[], ['1'], ['cent', '1'], ['5', '5', '1']]:
-        items.append(('G6', {'syms': w, 'fpb': 50, 'strategies': ALL_STRATEGIES, 'rich': True, 'decoys': True}))
+        items.append(('G6', {'syms': w, 'fpb': 50, 'strategies': ALL_STRATEGIES + [None], 'rich': True, 'decoys': True}))
         items.append(('G6', {'syms': w, 'fpb': 50, 'strategies': ALL_STRATEGIES, 'rich': True, 'purchase': True}))
     # G7: state of the change chain (0, 1, 2 of the two change addresses already used -> a new key is derived)
     for used in (0, 1, 2):
@@ -200,7 +200,8 @@ def gen_items(tier, seed):
                 items.append(('G7', {'syms': w, 'fpb': 50, 'strategies': QUICK_STRATEGIES if quick else ALL_STRATEGIES,
                                      'rich': False, 'used_change': used, 'choice': ch}))
     # G8: sweep (pre-chosen inputs, no requested output: the multi-round edge case of the balancing loop)
-    for w in [[], ['1'], ['neg'], ['one', 'one'], ['dust', 'dust1', 'cent'], ['neg', 'neg', 'neg', 'neg', 'neg', 'neg', '1']]:
+    for w in [[], ['1'], ['neg'], ['dust'], ['one', 'one'], ['dust', 'dust1'], ['dust', 'dust1', 'cent'],
+              ['neg', 'neg', 'neg', 'neg', 'neg', 'neg', '1']]:
         items.append(('G8', {'syms': w, 'fpb': 50, 'strategies': strategies if quick else ALL_STRATEGIES}))
     # G9: singles at the 250 limits
     for st in (['prefer_confirmed', 'sqlite', 'random_draw'] if quick else ALL_STRATEGIES):
@@ -429,6 +430,7 @@ class Session:
         else:
             self.close()
             self.h = make_harness(case)
+            self._observe(self.h)
             self.key = key
             self.base_rows = self.h.rows()
             self.base_addr = self.h.address_count()
@@ -438,7 +440,20 @@ class Session:
         h.ledger.fee_per_name_char = case['fpnc']
         h.script.perm, h.script.choice = case['perm'], case['choice']
         h.script.shuffles, h.script.choices = [], []
+        del h.selected[:]
         return h
+
+    @staticmethod
+    def _observe(h):
+        """Observation seam: how many outputs each ledger.get_spendable_utxos call handed out (forwarded unchanged)."""
+        h.selected = []
+        orig = h.ledger.get_spendable_utxos
+
+        async def observed(*a, **kw):
+            sp = await orig(*a, **kw)
+            h.selected.append(len(sp))
+            return sp
+        h.ledger.get_spendable_utxos = observed
 
     def _restore(self):
         h = self.h
@@ -495,6 +510,7 @@ def execute(case, session=None):
         obs['after'] = h.rows()
         obs['new_addresses'] = h.address_count() - naddr
         obs['change_chain'] = h.change_chain_addresses()
+        obs['selected'] = list(h.selected)
         obs['shuffles'] = list(h.script.shuffles)
         obs['choices'] = list(h.script.choices)
         obs['loop_exceptions'] = [str(c.get('exception') or c.get('message'))[:200] for c in h.loop.exc_contexts]
@@ -555,6 +571,8 @@ def judge(case, obs, res):
              f"only InsufficientFundsError is allowed")
     if obs['outcome'] in ('exception', 'insufficient'):
         leaked = reserved_after - reserved_before
+        if any(obs['selected']):
+            res.witness('failure_after_outputs_were_reserved')
         if leaked:
             viol({'kind': 'reserved-after-failure', 'outcome': obs['outcome'], 'strategy_is_sqlite': strat == 'sqlite'},
                  f'{len(leaked)} output(s) stay reserved after a failed build ({obs["outcome"]}, strategy {strat})')
@@ -798,7 +816,7 @@ def run(ctx):
                      'a claim/support output used as funding input is tallied (the statement only says unspent/unreserved)'],
         expected_witnesses=['exact_match_no_change', 'inside_cost_of_change_window', 'single_input_with_change',
                             'accumulation_of_several_inputs', 'random_draw_reached', 'new_change_key_derived',
-                            '250_inputs', '250_outputs', 'change_of_exactly_dust_plus_1', 'largest_surplus_without_change'],
+                            '250_inputs', '250_outputs', 'failure_after_outputs_were_reserved', 'change_of_exactly_dust_plus_1', 'largest_surplus_without_change'],
     )
 
 
